@@ -873,13 +873,17 @@ snarf_fld(struct ical_vevent_s ve[static 1U],
 			if (l.ndt == 0UL) {
 				break;
 			}
-			switch (fld) {
-			case FLD_XDATE:
-				ve->xdat = l;
-				break;
-			case FLD_RDATE:
-				ve->rdat = l;
-				break;
+			/* an event may carry several of these lines */
+			with (struct dtlst_s *tgt =
+			      fld == FLD_XDATE ? &ve->xdat : &ve->rdat) {
+				if (tgt->ndt == 0UL) {
+					*tgt = l;
+					break;
+				}
+				for (size_t i = 0UL; i < l.ndt; i++) {
+					add1_to_dtlst(tgt, l.dt[i]);
+				}
+				free(l.dt);
 			}
 		}
 		break;
@@ -2325,10 +2329,22 @@ __make_evrdat(echs_event_t e, const echs_instant_t *d, size_t nd)
 		}
 		/* now sort */
 		echs_instant_sort(rd, nd);
-		/* now spread out the instants as echs events */
-		for (size_t i = 0U; i < nd; i++) {
-			e.from = echs_instant_rescale(rd[i], cal);
-			res->ev[i] = e;
+		/* now spread out the instants as echs events,
+		 * an instant listed twice is one occurrence all the same */
+		with (size_t j = 0U) {
+			echs_instant_t prev = echs_nul_instant();
+
+			for (size_t i = 0U; i < nd; i++) {
+				const echs_instant_t this = rd[i];
+
+				if (i && echs_instant_eq_p(this, prev)) {
+					continue;
+				}
+				prev = this;
+				e.from = echs_instant_rescale(this, cal);
+				res->ev[j++] = e;
+			}
+			nd = j;
 		}
 	}
 	/* just the rest of the book-keeping */
